@@ -1027,3 +1027,61 @@ Proof.
   destruct pre as [|e2 pre]; [injection E as E2 E; inversion E2; subst; vm_compute; reflexivity|]. injection E as E2 E.
   destruct pre as [|e3 pre]; [discriminate|]. injection E as E3 E. destruct pre; discriminate.
 Qed.
+
+(* ------------------------------------------------------------------------------------------ *)
+(* further non-vacuity examples                                                                *)
+
+Definition ex_cfg (q : quorum) : cfg := {| cq := q; ctarget := None; cisreg := false |}.
+Definition ex_tx (l : list N) : record := {| rkey := 3; rcont := tx_content l; rpub := None |}.
+
+(* the quorum is reached on a split of transaction versions: Ok(sorted union) *)
+Example merged_example :
+  In (0, OMerged (ex_tx [1; 2; 3]))
+     (step_outs (final [Cmd 3 (ex_cfg (QN 2)); Found 0 (Some 1) (ex_tx [2; 1]); Found 0 (Some 2) (ex_tx [3])])
+                (Found 0 None (ex_tx [3]))) /\
+  ~ KnownMixedMerge (fst (insert_version [(ex_tx [2; 1], [1]); (ex_tx [3], [2])] (ex_tx [3]) 0)).
+Proof.
+  split; [vm_compute; left; reflexivity|]. intros (v & Hv & G). vm_compute in Hv.
+  destruct Hv as [Hv|[Hv|[]]]; subst v; vm_compute in G; discriminate.
+Qed.
+
+(* three callers on one query, the middle one gave up: the first is answered, the third observes
+   its sender dropped; a fourth caller on another key is still waiting *)
+Example one_outcome_example :
+  let evs := [Cmd 4 (ex_cfg QOne); Cmd 4 (ex_cfg QAll); Cmd 4 (ex_cfg QOne); Cmd 9 (ex_cfg QOne); Drop 1;
+              Found 0 (Some 1) (ex_tx [1])] in
+  outs evs = [(0, OOk (ex_tx [1])); (2, EClosed)] /\
+  waiting (final evs) 3 = true /\ waiting (final evs) 0 = false /\ next_cid (final evs) = 4 /\
+  dead (final evs) = [1].
+Proof. vm_compute. repeat split; reflexivity. Qed.
+
+(* a pending query below its quorum: two versions, one and two responders, quorum three *)
+Example below_quorum_example :
+  let evs := [Cmd 3 (ex_cfg QMajority); Found 0 (Some 1) (ex_tx [1]); Found 0 (Some 2) (ex_tx [2]);
+              Found 0 (Some 3) (ex_tx [2]); Found 0 (Some 3) (ex_tx [2])] in
+  exists x, In x (pending (final evs)) /\ qvers x = [(ex_tx [1], [1]); (ex_tx [2], [2; 3])].
+Proof. eexists. split; [vm_compute; left; reflexivity | reflexivity]. Qed.
+
+Example split_kind_examples :
+  first_kind [mk KTx (PTx [1]); mk KTx (PTx [2; 3])] = Some KTx /\
+  handle_split [mk KTx (PTx [1]); mk KTx (PTx [2; 3])] 8 = Some {| rkey := 8; rcont := tx_content [1; 2; 3]; rpub := None |} /\
+  first_kind [mk KPad (PPad true 3 1); mk KPad (PPad false 9 2); mk KPad (PPad true 7 3)] = Some KPad /\
+  handle_split [mk KPad (PPad true 3 1); mk KPad (PPad false 9 2); mk KPad (PPad true 7 3)] 8
+    = Some {| rkey := 8; rcont := {| ckind := Some KPad; cpay := PPad true 7 3 |}; rpub := None |} /\
+  first_kind [mk KReg (PReg 1 true [1] 0); mk KReg (PReg 1 true [2] 0)] = Some KReg /\
+  ~ forked_registers [mk KReg (PReg 1 true [1] 0); mk KReg (PReg 1 true [2] 0)].
+Proof.
+  repeat split; try reflexivity.
+  intros (r1 & r2 & b1 & o1 & s1 & b2 & o2 & s2 & H1 & H2 & _ & _ & P1 & P2 & NE).
+  destruct H1 as [H1|[H1|[]]], H2 as [H2|[H2|[]]]; subst; cbn in P1, P2;
+    inversion P1; inversion P2; subst; destruct NE as [NE|NE]; apply NE; reflexivity.
+Qed.
+
+(* get_record_from_network with one retry: first attempt times out, the second is a split of
+   registers which is merged *)
+Example api_example :
+  api_loop 3 2 [(ETimeout, []);
+                (ESplit [(mk KReg (PReg 0 true [1] 0), [1]); (mk KReg (PReg 0 true [2] 0), [2])],
+                 [mk KReg (PReg 0 true [2] 0); mk KReg (PReg 0 true [1] 0)])]
+  = Some (AOk {| rkey := 3; rcont := {| ckind := Some KReg; cpay := PReg 0 true [1; 2] 0 |}; rpub := None |}).
+Proof. reflexivity. Qed.
